@@ -206,6 +206,14 @@ Theorem C03_failure_label_irrelevant :
 Proof. split; [exact failure_label_in_source|exact report_fault_label_free]. Qed.
 Print Assumptions C03_failure_label_irrelevant.
 
+(* stale identity in the failure-reporting glue: the handler of device events finds the environment
+   through the rostered task's current parent, never through the ids the message carries (read from
+   core/environment by the translator ownerrouting on every run); exercised by the claimed-task
+   worlds of the harness, where every label names an environment that no longer exists *)
+Theorem C03_failure_routed_to_owner : routed_by_owner = true.
+Proof. exact routed_by_owner_in_source. Qed.
+Print Assumptions C03_failure_routed_to_owner.
+
 (* the interleaving the harness forces (corpus cases corpus-overtaken-...): the ERROR update of the
    dying critical task is stopped between its two halves, a late RUNNING reply of the same task runs
    to its end, the first goes on: ERROR, run end stamped, although the role reports RUNNING *)
